@@ -43,6 +43,9 @@ func genRacePlan(seed uint64, thorough bool) *Plan {
 			case 7:
 				add("MULTI")
 				add(g.concCmd(tk)...)
+				if g.chance(3) {
+					add("SELECT", g.pick("0", "1", "2"))
+				}
 				add(g.concCmd(tk)...)
 				add("EXEC")
 			case 8:
